@@ -10,18 +10,21 @@ class Pair(object):
 def make_pair(ctx, rng, d, catalog, kinds=None, nmut=1, lang="c", gen_kw=None, cfg=None, need_users=True, decorate=None):
     """Generate P, mutate it nmut times with `catalog`, build both with one configuration.
     Returns (Pair or None, skip_reason)."""
-    opts = wl.gen_opts(rng, ctx.tier, lang=lang, **(gen_kw or {}))
-    p = progen.generate(rng, opts)
-    if decorate:
-        decorate(p, rng)
-    q = p
-    expects = []
-    for k in range(nmut):
-        res = mutate.apply_random(catalog, q, rng, kinds)
-        if res is None:
+    for _attempt in range(6):
+        opts = wl.gen_opts(rng, ctx.tier, lang=lang, **(gen_kw or {}))
+        p = progen.generate(rng, opts)
+        if decorate:
+            decorate(p, rng)
+        q = p
+        expects = []
+        for k in range(nmut):
+            res = mutate.apply_random(catalog, q, rng, kinds)
+            if res is None:
+                break
+            q, e = res
+            expects.append(e)
+        if expects:
             break
-        q, e = res
-        expects.append(e)
     if not expects:
         return None, "no-applicable-mutation"
     cfg = cfg or wl.pick_config(rng, kinds=("so", "so", "so", "exec", "rel"))
